@@ -203,8 +203,11 @@ def write_evidence(ctx: Ctx, *, rule, evaluations, nontrivial, assumptions, extr
         "repo_root": env.repo_root(),
         "verdict": "violated" if ctx.viol_keys else ("inconclusive" if ctx.inconclusive else "held"),
     }
-    os.makedirs(os.path.join(ROOT, "evidence"), exist_ok=True)
-    path = os.path.join(ROOT, "evidence", f"{ctx.prop}.json")
+    # evidence/ is for runs against /repo itself; runs against a scratch copy (VERIF_REPO=..., mutation audit,
+    # seeded-change evaluation) must not overwrite it
+    evdir = os.path.join(ROOT, "evidence") if os.path.realpath(env.repo_root()) == os.path.realpath("/repo") else os.path.join(ROOT, ".work", "evidence-other-tree")
+    os.makedirs(evdir, exist_ok=True)
+    path = os.path.join(evdir, f"{ctx.prop}.json")
     tmp = path + ".tmp"
     with open(tmp, "w", encoding="utf-8") as f:
         json.dump(ev, f, indent=1, sort_keys=True)
